@@ -267,6 +267,16 @@ def main(run: core.Run, only=None):
                 continue
             cases.append({"method": method, "geos": [gi], "fluids": fluids})
     run.drive(cases, family="configurations")
+    # every fluid name (in three spellings) at a low and at the schema's highest concentration, and the schema's boundary values the API
+    # accepts: boreholes that start at the surface, a one-month horizon
+    extra = []
+    for name in ("Water", "PropyleneGlycol", "ETHYLENEGLYCOL", "methylalcohol", "EthylAlcohol", "METHYLALCOHOL", "ethylalcohol", "propyleneglycol"):
+        for conc in ((0.0,) if name.lower() == "water" else (10.0, 60.0 if "GLYCOL" in name.upper() else 40.0)):
+            extra.append({"method": "nearsquare", "geo": GEOS["nearsquare"][0], "pipe": "single", "fluid": [name, conc], "cap": None, "cont": False, "flow": "borehole"})
+    for pipe in scenarios.PIPES:
+        extra.append({"method": "rectangle", "geo": GEOS["rectangle"][0], "pipe": pipe, "fluid": ["Water", 0.0], "cap": None, "cont": False, "flow": "borehole", "borehole": [96.0, 0.0, 0.15]})
+        extra.append({"method": "nearsquare", "geo": GEOS["nearsquare"][0], "pipe": pipe, "fluid": ["Water", 0.0], "cap": 12, "cont": True, "flow": "system", "flow_rate": 2.0, "months": 1})
+    run.drive(extra, family="fluids-and-boundary-values")
     step = 10
     rot = [{"kind": "rotations", "lo": lo, "hi": min(361, lo + step)} for lo in range(0, 361, step)]
     run.drive(rot[::3] if quick else rot, family="rowwise-rotations")
